@@ -138,6 +138,7 @@ type Exec struct {
 	track *writeTracker
 
 	symbolicSeen bool
+	ios          *ioState
 	feasCache    map[[20]byte]bool
 	InitSecs     float64
 	monoUnknown  int
@@ -182,6 +183,7 @@ func (ex *Exec) newPath() {
 	ex.pathEvents = nil
 	ex.Prune, ex.Merge = true, true
 	ex.track = nil
+	ex.ios = nil
 	ex.sched.reset(ex)
 }
 
